@@ -828,6 +828,9 @@ func fieldKey(v ssa.Value) string {
 func returnsOf(fn *ssa.Function) []*ssa.Return {
 	var out []*ssa.Return
 	for _, b := range fn.Blocks {
+		if b == fn.Recover {
+			continue // synthetic return taken only after a recovered panic
+		}
 		for _, i := range b.Instrs {
 			if r, ok := i.(*ssa.Return); ok {
 				out = append(out, r)
